@@ -6,6 +6,12 @@ def funnel_job(tag, n_quick=6000, n_thorough=150000):
             "why": "event log (processor calls, destination writes, DLQ writes, source acks, result class) of the real "
                    "funnel.Worker differs from the Lean model of the arch-v2 engine on the same batches, plugin scripts and fan-out order"}
 
+def funnel_conc_job(tag, n_quick=1500, n_thorough=60000):
+    return {"harness": "h_funnel", "comp": "funnelconc", "driver": "funnelmon", "n_quick": n_quick, "n_thorough": n_thorough,
+            "fail_tag": tag,
+            "why": "the Lean-defined property monitor fails on the event log of the real funnel.Worker running fan-out branches "
+                   "concurrently (real goroutine interleavings, GOMAXPROCS unrestricted, random yields)"}
+
 FUNNEL_RULE = ("funnel: task tree (0-3 processors, 1-3 destination branches, optional branch processor), DLQ window config, 1-3 source "
                "batches, and plugin replies generated reactively per call (pass/modify/filter/error/split/nil, fewer/more/none; "
                "destination acks partitioned into several responses with errors, wrong/extra/out-of-order/short/empty/error responses), "
